@@ -92,9 +92,15 @@ def run(ctx):
         ctx.violation(key, f"{c['script'].strip()} with structures "
                            f"{ {k: [x for x, _ in v['shape'].ids + v['shape'].ms] for k, v in c['dss'].items()} } :: {d}",
                       {"case": exprk.case_json(c), "disagreement": d, "where": w})
-    ctx.cov["distribution"] = {"where_case_variants_meet": hist, "disagreements": dis}
+    import c29extra
+    dhist = c29extra.run_directed(ctx, 2 if q else 40)
+    fhist = c29extra.run_input_forms(ctx)
+    ctx.cov["distribution"] = {"where_case_variants_meet": hist, "disagreements": dis, "directed_templates_agreeing": dhist, "input_forms_agreeing": fhist}
     ctx.cov["rule"] = ("exprk-generated scripts rewritten so that component or dataset names are case variants of each other (in one dataset, across "
-                       "datasets, created by calc/rename, dataset names); expected = specification with exact names; distinct = (script, data)")
+                       "datasets, created by calc/rename, dataset names); expected = specification with exact names; directed templates where a clause creates "
+                       "a case variant of an existing name (rename to own case variant outermost / + keep, drop, filter, operator; calc; two variants at once); "
+                       "datasets DS_1/ds_1 in separate statements under every datapoint input form (dict of frames, dict of paths, list of paths); "
+                       "distinct = (script, data)")
     ctx.oblige("K: engine compared with the exact-name specification on every case", True)
 
 
